@@ -159,7 +159,7 @@ func isExternalRef(ref string, parentIsExternal bool) bool {
 }
 
 func (doc *T) addSchemaToSpec(s *SchemaRef, refNameResolver RefNameResolver, parentIsExternal bool) bool {
-	if s == nil || !isExternalRef(s.Ref, parentIsExternal) {
+	if s == nil || s.Value == nil || !isExternalRef(s.Ref, parentIsExternal) {
 		return false
 	}
 
@@ -183,7 +183,7 @@ func (doc *T) addSchemaToSpec(s *SchemaRef, refNameResolver RefNameResolver, par
 }
 
 func (doc *T) addParameterToSpec(p *ParameterRef, refNameResolver RefNameResolver, parentIsExternal bool) bool {
-	if p == nil || !isExternalRef(p.Ref, parentIsExternal) {
+	if p == nil || p.Value == nil || !isExternalRef(p.Ref, parentIsExternal) {
 		return false
 	}
 	name := refNameResolver(doc, p)
@@ -206,7 +206,7 @@ func (doc *T) addParameterToSpec(p *ParameterRef, refNameResolver RefNameResolve
 }
 
 func (doc *T) addHeaderToSpec(h *HeaderRef, refNameResolver RefNameResolver, parentIsExternal bool) bool {
-	if h == nil || !isExternalRef(h.Ref, parentIsExternal) {
+	if h == nil || h.Value == nil || !isExternalRef(h.Ref, parentIsExternal) {
 		return false
 	}
 	name := refNameResolver(doc, h)
@@ -229,7 +229,7 @@ func (doc *T) addHeaderToSpec(h *HeaderRef, refNameResolver RefNameResolver, par
 }
 
 func (doc *T) addRequestBodyToSpec(r *RequestBodyRef, refNameResolver RefNameResolver, parentIsExternal bool) bool {
-	if r == nil || !isExternalRef(r.Ref, parentIsExternal) {
+	if r == nil || r.Value == nil || !isExternalRef(r.Ref, parentIsExternal) {
 		return false
 	}
 	name := refNameResolver(doc, r)
@@ -252,7 +252,7 @@ func (doc *T) addRequestBodyToSpec(r *RequestBodyRef, refNameResolver RefNameRes
 }
 
 func (doc *T) addResponseToSpec(r *ResponseRef, refNameResolver RefNameResolver, parentIsExternal bool) bool {
-	if r == nil || !isExternalRef(r.Ref, parentIsExternal) {
+	if r == nil || r.Value == nil || !isExternalRef(r.Ref, parentIsExternal) {
 		return false
 	}
 	name := refNameResolver(doc, r)
@@ -275,7 +275,7 @@ func (doc *T) addResponseToSpec(r *ResponseRef, refNameResolver RefNameResolver,
 }
 
 func (doc *T) addSecuritySchemeToSpec(ss *SecuritySchemeRef, refNameResolver RefNameResolver, parentIsExternal bool) {
-	if ss == nil || !isExternalRef(ss.Ref, parentIsExternal) {
+	if ss == nil || ss.Value == nil || !isExternalRef(ss.Ref, parentIsExternal) {
 		return
 	}
 	name := refNameResolver(doc, ss)
@@ -298,7 +298,7 @@ func (doc *T) addSecuritySchemeToSpec(ss *SecuritySchemeRef, refNameResolver Ref
 }
 
 func (doc *T) addExampleToSpec(e *ExampleRef, refNameResolver RefNameResolver, parentIsExternal bool) {
-	if e == nil || !isExternalRef(e.Ref, parentIsExternal) {
+	if e == nil || e.Value == nil || !isExternalRef(e.Ref, parentIsExternal) {
 		return
 	}
 	name := refNameResolver(doc, e)
@@ -321,7 +321,7 @@ func (doc *T) addExampleToSpec(e *ExampleRef, refNameResolver RefNameResolver, p
 }
 
 func (doc *T) addLinkToSpec(l *LinkRef, refNameResolver RefNameResolver, parentIsExternal bool) {
-	if l == nil || !isExternalRef(l.Ref, parentIsExternal) {
+	if l == nil || l.Value == nil || !isExternalRef(l.Ref, parentIsExternal) {
 		return
 	}
 	name := refNameResolver(doc, l)
@@ -344,7 +344,7 @@ func (doc *T) addLinkToSpec(l *LinkRef, refNameResolver RefNameResolver, parentI
 }
 
 func (doc *T) addCallbackToSpec(c *CallbackRef, refNameResolver RefNameResolver, parentIsExternal bool) bool {
-	if c == nil || !isExternalRef(c.Ref, parentIsExternal) {
+	if c == nil || c.Value == nil || !isExternalRef(c.Ref, parentIsExternal) {
 		return false
 	}
 	name := refNameResolver(doc, c)
